@@ -104,7 +104,11 @@ Proof. vm_compute. repeat split. Qed.
 
 (* ---- dir_refines_map: the decoding of one directory as a finite map (key = raw short name, [dir_map]) commutes with the
    library's create (create_file / create_dir: existence check, alias, write), remove (find by the library's own matching,
-   deletion loop) and rename within the directory (find, existence check, alias, delete, write).  [attrs_sane]: the
+   deletion loop) and rename within the directory (find, existence check, alias, delete, write).  A rename whose
+   destination name resolves to the source entry itself is a no-op ONLY for the identical spelling ([has_exact_name],
+   spelled out by C01_has_exact_name_spec); for another case of the long name, or for the entry's own alias, the entry is
+   rewritten: same key (raw short name), new long name, same attributes/size/cluster (D22, fixed in 46d26a5; the premise
+   [length (e_sfn e) = 11] holds for every 32-byte slot).  [attrs_sane]: the
    library's and the decoder's long-name-slot tests agree on every slot (they differ only on attribute bytes 0x1F, 0x2F,
    0x3F (+0x40/0x80), which no writer produces: C01_remove_entry_insane_refuted); [bytes_ok]: slots hold bytes. *)
 Theorem C01_dir_refines_map :
@@ -127,14 +131,30 @@ Theorem C01_dir_refines_map :
      dir_scan ss 0 [] fat32 = (es, ls, []) -> len_N ss < 134217728 -> Forall attrs_sane ss -> Forall bytes_ok ss ->
      NoDup (map e_sfn es) ->
      rename_in_dir upper oem k free ss src dst = (Ok tt, ss') ->
-     ss' = ss \/
-     exists e ne es',
-       In e es /\ dir_scan ss' 0 [] fat32 = (es', ls, []) /\
-       e_lfn ne = (if is_dot_name dst then [] else utf16_encode dst) /\ e_lfn_ok ne = true /\
-       sfn_legal_b (e_sfn ne) = true /\ ~ In (e_sfn ne) (map e_sfn es) /\
-       e_attr ne = e_attr e mod 64 /\ e_size ne = e_size e /\ e_cluster ne = e_cluster e /\
-       forall key, dir_map es' key =
-         if list_eqb (e_sfn ne) key then Some ne else if list_eqb (e_sfn e) key then None else dir_map es key).
+     exists ev e,
+       find_entry upper oem ss src None = Ok ev /\ In e es /\ Lfn.ev_raw_name ev = e_sfn e /\
+       ((* the destination name is not in use: e leaves the map, a new entry under a fresh legal alias enters it *)
+        (exists a ne es',
+           check_for_existence upper oem ss dst None = Ok (Fresh a) /\
+           dir_scan ss' 0 [] fat32 = (es', ls, []) /\
+           e_lfn ne = (if is_dot_name dst then [] else utf16_encode dst) /\ e_lfn_ok ne = true /\
+           e_sfn ne = a /\ sfn_legal_b a = true /\ ~ In a (map e_sfn es) /\
+           e_attr ne = e_attr e mod 64 /\ e_size ne = e_size e /\ e_cluster ne = e_cluster e /\
+           forall key, dir_map es' key =
+             if list_eqb a key then Some ne else if list_eqb (e_sfn e) key then None else dir_map es key) \/
+        (* the destination name resolves to the source entry itself (its long name in any case, or its alias) *)
+        (exists dv,
+           check_for_existence upper oem ss dst None = Ok (Exists dv) /\ Lfn.ev_end dv = Lfn.ev_end ev /\
+           (* ... in the identical spelling: nothing happens *)
+           (has_exact_name ev dst = true -> ss' = ss) /\
+           (* ... in another spelling: the key of e now holds the entry with the new long name and the same short name *)
+           (has_exact_name ev dst = false -> length (e_sfn e) = 11%nat ->
+            exists ne es',
+              dir_scan ss' 0 [] fat32 = (es', ls, []) /\
+              e_lfn ne = (if is_dot_name dst then [] else utf16_encode dst) /\ e_lfn_ok ne = true /\
+              e_sfn ne = e_sfn e /\
+              e_attr ne = e_attr e mod 64 /\ e_size ne = e_size e /\ e_cluster ne = e_cluster e /\
+              forall key, dir_map es' key = if list_eqb (e_sfn e) key then Some ne else dir_map es key)))).
 Proof. exact dir_refines_map. Qed.
 Theorem C01_remove_entry_insane_refuted :
   exists ss name ss' es ls,
@@ -142,12 +162,25 @@ Theorem C01_remove_entry_insane_refuted :
     remove_entry upper_ascii oem_decode_lossy ss name false = (Ok tt, ss') /\
     dir_scan ss' 0 [] false = ([], [], []) /\ ~ Forall attrs_sane ss.
 Proof. exact remove_entry_insane_refuted. Qed.
+(* DirEntry::has_exact_name: the stored long name is, unit for unit, the UTF-16 form of the name; an entry without a long
+   name is compared through its rendered short name ("B", "A.TXT") with the bytes of the name *)
+Theorem C01_has_exact_name_spec : forall ev name,
+  has_exact_name ev name = true <->
+  (Lfn.ev_lfn ev <> [] /\ Lfn.ev_lfn ev = utf16_encode name) \/
+  (Lfn.ev_lfn ev = [] /\ Lfn.ev_short ev = utf8_encode name).
+Proof. exact has_exact_name_spec. Qed.
+(* the premise [length (e_sfn e) = 11] of the rewrite case holds in every directory made of 32-byte slots *)
+Theorem C01_decoded_sfn_length : forall fat32 ss es ls iss e,
+  dir_scan ss 0 [] fat32 = (es, ls, iss) -> Forall (fun s => length s = 32%nat) ss -> In e es -> length (e_sfn e) = 11%nat.
+Proof. exact decoded_sfn_length. Qed.
+Example C01_decoded_sfn_length_ex : Forall (fun s => length s = 32%nat) ex_dir2 /\ length (fst (fst (dir_scan ex_dir2 0 [] false))) = 2%nat.
+Proof. split; [repeat constructor|reflexivity]. Qed.
 (* the library's rename_in_dir on the example directory: "b" -> "hello world.TXT" is refused (exists under another case),
-   "b" -> "B" is a no-op (same entry), "b" -> "c" moves the entry in the map *)
+   "b" -> "b" is a no-op (same entry, identical spelling), "b" -> "c" moves the entry in the map *)
 Example C01_rename_ex :
   rename_in_dir upper_ascii oem_decode_lossy FixedRoot 0 ex_dir2 [98]
     [104; 101; 108; 108; 111; 32; 119; 111; 114; 108; 100; 46; 84; 88; 84] = (Err EAlreadyExists, ex_dir2) /\
-  rename_in_dir upper_ascii oem_decode_lossy FixedRoot 0 ex_dir2 [98] [66] = (Ok tt, ex_dir2) /\
+  rename_in_dir upper_ascii oem_decode_lossy FixedRoot 0 ex_dir2 [98] [98] = (Ok tt, ex_dir2) /\
   (let r := rename_in_dir upper_ascii oem_decode_lossy FixedRoot 0 ex_dir2 [98] [99] in
    fst r = Ok tt /\ map e_lfn (fst (fst (dir_scan (snd r) 0 [] false))) = [ex_name1; [99]] /\
    map e_sfn (fst (fst (dir_scan (snd r) 0 [] false))) = [ex_alias1; [67; 32; 32; 32; 32; 32; 32; 32; 32; 32; 32]] /\
@@ -163,6 +196,48 @@ Proof.
   split; [|vm_compute; split; reflexivity].
   vm_compute. constructor; [|constructor; [|constructor]]; cbn [In]; [intros [C|[]]; discriminate|intros []].
 Qed.
+(* a CASE-ONLY rename, and a rename onto the entry's own alias (D22, fixed): ex_dir2 holds "hello world.txt" (alias
+   HELLOW~1.TXT, slots 0-2) and "b" (alias B, slots 3-4).
+   "b" -> "B": the destination resolves to the source entry itself, which is stored as "b": not the identical spelling, so
+   the entry is rewritten (here into the slots just freed) with the long name "B" and the same short name; all other
+   slots are untouched.  "hello world.txt" -> "HELLO WORLD.TXT" likewise; "hello world.txt" -> "HELLOW~1.TXT" (its alias)
+   makes the alias spelling the long name (now 1 long-name slot instead of 2: the entry is rewritten at slots 0-1, slot 2 stays
+   deleted).  In every case the short names - the keys of the map - are as before, and no decoder issue appears. *)
+Example C01_rename_case_only_ex :
+  let scan ss := (map e_lfn (fst (fst (dir_scan ss 0 [] false))), map e_sfn (fst (fst (dir_scan ss 0 [] false))),
+                  snd (dir_scan ss 0 [] false)) in
+  let ren := rename_in_dir upper_ascii oem_decode_lossy FixedRoot 0 ex_dir2 in
+  scan ex_dir2 = ([ex_name1; [98]], [ex_alias1; ex_alias2], []) /\
+  (exists ev, find_entry upper_ascii oem_decode_lossy ex_dir2 [98] None = Ok ev /\
+              check_for_existence upper_ascii oem_decode_lossy ex_dir2 [66] None = Ok (Exists ev) /\
+              Lfn.ev_lfn ev = [98] /\ has_exact_name ev [66] = false /\ has_exact_name ev [98] = true) /\
+  (let r := ren [98] [66] in
+   fst r = Ok tt /\ snd r <> ex_dir2 /\ scan (snd r) = ([ex_name1; [66]], [ex_alias1; ex_alias2], []) /\
+   firstn 3 (snd r) = firstn 3 ex_dir2 /\ nth 4 (snd r) [] = nth 4 ex_dir2 [] /\ skipn 5 (snd r) = skipn 5 ex_dir2) /\
+  (let r := ren ex_name1 [72; 69; 76; 76; 79; 32; 87; 79; 82; 76; 68; 46; 84; 88; 84] in
+   fst r = Ok tt /\
+   scan (snd r) = ([[72; 69; 76; 76; 79; 32; 87; 79; 82; 76; 68; 46; 84; 88; 84]; [98]], [ex_alias1; ex_alias2], []) /\
+   nth 2 (snd r) [] = nth 2 ex_dir2 []) /\
+  (let r := ren ex_name1 [72; 69; 76; 76; 79; 87; 126; 49; 46; 84; 88; 84] in
+   fst r = Ok tt /\
+   scan (snd r) = ([[72; 69; 76; 76; 79; 87; 126; 49; 46; 84; 88; 84]; [98]], [ex_alias1; ex_alias2], []) /\
+   map (fun s => byte_at s 0) (snd r) = [65; 72; 229; 65; 66; 0; 0; 0]) /\
+  (* the identical spelling: nothing happens *)
+  ren [98] [98] = (Ok tt, ex_dir2) /\
+  (* an entry WITHOUT a long name (short slot "B" only) is stored as "B": "b" -> "B" is the identical spelling (no-op),
+     "B" -> "b" gives it the long name "b" and keeps the short name *)
+  (let d := [ex_live; zero_slot] in
+   scan d = ([[]], [ex_alias2], []) /\
+   rename_in_dir upper_ascii oem_decode_lossy FixedRoot 0 d [98] [66] = (Ok tt, d) /\
+   let r := rename_in_dir upper_ascii oem_decode_lossy FixedRoot 0 d [66] [98] in
+   fst r = Ok tt /\ scan (snd r) = ([[98]], [ex_alias2], [])).
+Proof.
+  cbn zeta. split; [vm_compute; reflexivity|]. split.
+  { eexists. split; [vm_compute; reflexivity|]. vm_compute. repeat split. }
+  split. { split; [vm_compute; reflexivity|]. split; [vm_compute; discriminate|]. vm_compute. repeat split. }
+  split; [vm_compute; repeat split|]. split; [vm_compute; repeat split|]. split; [vm_compute; reflexivity|].
+  vm_compute. repeat split.
+Qed.
 
 Print Assumptions C01_image_write_frame.
 Print Assumptions C01_find_free_entries_spec.
@@ -173,3 +248,5 @@ Print Assumptions C01_rename_failed_unchanged_refuted.
 Print Assumptions C01_create_entry_refines.
 Print Assumptions C01_dir_refines_map.
 Print Assumptions C01_remove_entry_insane_refuted.
+Print Assumptions C01_has_exact_name_spec.
+Print Assumptions C01_decoded_sfn_length.
